@@ -30,7 +30,7 @@ pub struct Spec {
     pub want_c: bool,
 }
 
-pub const ASSUME_DOMAIN: &str = "inputs are drawn from the robust domains of DESIGN.md §3 (exact families: rectilinear bitmaps, octagonal lattice, their exact affine images, and `flat-oct` = octagonal-lattice operand against an axis-parallel operand with x scaled by 2^kx, kx <= 30, i.e. long flat shapes whose edges cross at angles down to 1e-9, and `fan` = triangles between consecutive lattice rays around one apex, shared between the operands, i.e. up to 26 edges meeting in one vertex; inexact families: perturbed shared triangulation, float stars in general position with margin 1e-6*magnitude, self-crossing rings in general position); the inexact-and-degenerate region where the recorded findings K1-K4/N2 live is excluded by construction";
+pub const ASSUME_DOMAIN: &str = "inputs are drawn from the robust domains of DESIGN.md §3 (exact families: rectilinear bitmaps, octagonal lattice, their exact affine images, and `flat-oct` = octagonal-lattice operand against an axis-parallel operand with x scaled by 2^kx, kx <= 30, i.e. long flat shapes whose edges cross at angles down to 1e-9, and `fan` = triangles between consecutive lattice rays around one apex, shared between the operands, i.e. up to 26 edges meeting in one vertex, and `bars` = up to 28 horizontal bars against up to 28 vertical bars, i.e. about twelve times more proper crossings than input edges; inexact families: perturbed shared triangulation, float stars in general position with margin 1e-6*magnitude, self-crossing rings in general position); the inexact-and-degenerate region where the recorded findings K1-K4/N2 live is excluded by construction";
 pub const ASSUME_ORACLE: &str = "oracle trusted base: robust::orient2d (exact orientation), the boundary tracer (cross-checked against the bitmap/triangle model on every generated operand), the witness construction (approximate placement, exact classification)";
 pub const ASSUME_TOL: &str = "tolerance model: 0 on exact families (bitwise comparisons), 1e-9*max|coordinate| for f64 and 1e-4*max|coordinate| for f32 on inexact families; witnesses closer than the tolerance to an input edge are skipped and counted";
 
@@ -40,7 +40,8 @@ fn fam(name: &'static str, cases: u64, want_c: bool, f: impl Fn() -> proptest::s
 
 /// the standard mix of robust-domain pair families; `scale` multiplies the per-family case counts
 /// (base: rect 8, oct 8, aff 2, pert 2, gen 3, selfx 1 per 24)
-pub fn pair_families(tier: Tier, total_quick: u64, total_thorough: u64, selfx: bool, want_c: bool) -> Vec<FamilyPlan> {
+/// `bars_k`: size of the crossing-heavy `bars` family (28 x 28 bars for the cheap oracles, 12 x 12 for the expensive ones)
+pub fn pair_families(tier: Tier, total_quick: u64, total_thorough: u64, selfx: bool, want_c: bool, bars_k: u8) -> Vec<FamilyPlan> {
     let total = tier.pick(total_quick, total_thorough);
     let unit = total / 24;
     let (rw, ow) = match tier {
@@ -56,6 +57,7 @@ pub fn pair_families(tier: Tier, total_quick: u64, total_thorough: u64, selfx: b
         fam("gen", unit * 3, want_c, || strat::case(strat::gen_shape(), false)),
         fam("flat-oct", unit, want_c, move || strat::flat_case(ow, ow, 30)),
         fam("fan", unit, want_c, || strat::case(strat::fan_shape(), false)),
+        fam("bars", (unit / 24).max(20), want_c, move || strat::case(strat::bars_shape(bars_k), false)),
     ];
     if selfx {
         v.push(fam("selfx", unit, false, || strat::case(strat::selfx_shape(), false)));
@@ -85,7 +87,7 @@ pub fn spec(id: &str, tier: Tier) -> Option<Spec> {
             id: "C01",
             rule: "operand pairs from the robust families (rect/oct/aff/pert/gen/selfx) x all 4 operations x one trait pairing chosen among those the part counts allow; oracle: exact even-odd membership at one witness per face of the input arrangement. Non-trivial: bounding boxes overlap (sweep path) AND witnesses exist in A-only and in (B-only or both) AND the operands have a shared boundary segment, a vertex-on-edge contact or a proper crossing. Distinct: hash of operand coordinate bits and auxiliary bits.",
             design_ref: "§5 C01",
-            families: pair_families(tier, 120_000, 4_800_000, true, false),
+            families: pair_families(tier, 120_000, 4_800_000, true, false, 28),
             spaces: match tier {
                 Tier::Quick => vec![rect_pair_space("all bitmap pairs on the 2x2 unit grid", 2, 2), rect_pair_space("all bitmap pairs on the 3x2 unit grid", 3, 2)],
                 Tier::Thorough => vec![rect_pair_space("all bitmap pairs on the 2x2 unit grid", 2, 2), rect_pair_space("all bitmap pairs on the 3x2 unit grid", 3, 2), rect_pair_space("all bitmap pairs on the 3x3 unit grid", 3, 3)],
@@ -98,7 +100,7 @@ pub fn spec(id: &str, tier: Tier) -> Option<Spec> {
             id: "C02",
             rule: "same generation as C01; oracle is purely structural on the result's own arrangement: (i) no point in two polygons, (ii) no point in two holes of a polygon and every hole point inside that polygon's exterior, (iii) polygon-wise reading == even-odd over all result rings, (iv) no atomic boundary piece occurs twice, (v) every hole has an interior face. Non-trivial: some result has >= 2 rings or a hole, or the operands share a boundary segment.",
             design_ref: "§5 C02",
-            families: pair_families(tier, 120_000, 4_800_000, true, false),
+            families: pair_families(tier, 120_000, 4_800_000, true, false, 28),
             spaces: match tier {
                 Tier::Quick => vec![rect_pair_space("all bitmap pairs on the 2x2 unit grid", 2, 2), rect_pair_space("all bitmap pairs on the 3x2 unit grid", 3, 2)],
                 Tier::Thorough => vec![rect_pair_space("all bitmap pairs on the 3x2 unit grid", 3, 2), rect_pair_space("all bitmap pairs on the 3x3 unit grid", 3, 3)],
@@ -111,7 +113,7 @@ pub fn spec(id: &str, tier: Tier) -> Option<Spec> {
             id: "C04",
             rule: "same generation as C01 without self-crossing rings; every result ring closed, >= 3 distinct vertices, non-zero area, counter-clockwise (bit-identical to the inputs on the disjoint-box path); every result edge on one input edge; every result vertex an input vertex or (exact families) exactly on two non-parallel input edges / (inexact) within tol*(1+1/sin) of their crossing. Non-trivial: some result contains a computed vertex (not an input vertex).",
             design_ref: "§5 C04",
-            families: pair_families(tier, 96_000, 4_800_000, false, false),
+            families: pair_families(tier, 96_000, 4_800_000, false, false, 28),
             spaces: vec![],
             check: Box::new(|c, o| result::c04(c, o, Prec::F64)),
             assumptions,
@@ -121,7 +123,7 @@ pub fn spec(id: &str, tier: Tier) -> Option<Spec> {
             id: "C05",
             rule: "same generation as C01; the five results I, U, A-B, B-A, X of one pair are compared with each other only (no operand oracle): [I]+[A-B]+[B-A]=[U] and [X]=[A-B] or [B-A] at every witness, and the three area identities (exact equality on exact families, 1e-9 relative otherwise). Non-trivial: I, A-B and B-A are all non-empty at some witness.",
             design_ref: "§5 C05",
-            families: pair_families(tier, 80_000, 4_000_000, true, false),
+            families: pair_families(tier, 80_000, 4_000_000, true, false, 28),
             spaces: vec![],
             check: Box::new(|c, o| result::c05(c, o, Prec::F64)),
             assumptions,
@@ -131,7 +133,7 @@ pub fn spec(id: &str, tier: Tier) -> Option<Spec> {
             id: "C13",
             rule: "robust-domain operand pairs; fill_queue and subdivide are called directly for all 4 operations. Queue filling: 2 events per non-degenerate edge, mutual links, one left flag per pair, left first, each pair an edge of its operand, bounding boxes bitwise equal to the min/max over the operand's edge endpoints. Subdivision: links, left-before-right, non-zero length; planarity of all pairs of fully processed sub-segments by exact predicates (coincident twins must belong to different operands); every sub-segment on an edge of its operand; for complete sweeps (union, xor, and intersection/difference without early stop) the sub-segments on every input edge chain bitwise from one endpoint to the other and account for all sub-segments. Non-trivial: at least one division happened (more sub-segments than input edges).",
             design_ref: "§5 C13",
-            families: pair_families(tier, 96_000, 4_800_000, true, false),
+            families: pair_families(tier, 96_000, 4_800_000, true, false, 28),
             spaces: match tier {
                 Tier::Quick => vec![rect_pair_space("all bitmap pairs on the 2x2 unit grid", 2, 2)],
                 Tier::Thorough => vec![rect_pair_space("all bitmap pairs on the 3x2 unit grid", 3, 2)],
@@ -144,7 +146,7 @@ pub fn spec(id: &str, tier: Tier) -> Option<Spec> {
             id: "C14",
             rule: "robust-domain operand pairs, all 4 operations, every processed left event (sub-segment): side points just below/above its midpoint (vertical: right/left), shrunk until the probe is clear of all other sub-segments and input edges (otherwise skipped and counted); exact even-odd membership of the side points in the input operands decides in_out, other_in_out, edge type, in_result and the transition direction (for coincident twins: exactly one carries the boundary, with the direction of the combined change); prev_in_result must be a processed, earlier, non-vertical left event in the result, and for result edges `region below is inside the result` must equal `recorded lower result edge exists and is OutIn`. Non-trivial: the case has a twin pair or a vertical sub-segment with a same-operand contact, and a sub-segment in the result.",
             design_ref: "§5 C14",
-            families: pair_families(tier, 96_000, 4_800_000, true, false),
+            families: pair_families(tier, 96_000, 4_800_000, true, false, 12),
             spaces: match tier {
                 Tier::Quick => vec![rect_pair_space("all bitmap pairs on the 2x2 unit grid", 2, 2), rect_pair_space("all bitmap pairs on the 3x2 unit grid", 3, 2)],
                 Tier::Thorough => vec![rect_pair_space("all bitmap pairs on the 3x2 unit grid", 3, 2), rect_pair_space("all bitmap pairs on the 3x3 unit grid", 3, 3)],
@@ -157,7 +159,7 @@ pub fn spec(id: &str, tier: Tier) -> Option<Spec> {
             id: "C15",
             rule: "the event sets of robust-domain operand pairs before subdivision (as created by fill_queue) and after (processed events), one operation per case, capped at 160 events, plus generated stars of up to 12 edges around one vertex (both directions, verticals, both operands) and the four events of class-drawn integer segment pairs (T-contacts, common endpoints, collinear configurations, coordinates up to 2^25) and of float segment pairs in nearly degenerate position (a segment starting or ending within a few ulps of another one, or leaving a common endpoint in almost the same direction; 53-bit mantissas, magnitudes up to 2^30): all ordered pairs (never Equal, antisymmetric, agreement with the reference order x, y, right-before-left, lower segment first by exact orientation), all triples up to 60 events / 20000 sampled triples beyond (transitivity); compare_segments on all pairs of left events with overlapping x-extent (Equal iff identical, antisymmetric, Less iff below wherever the reference decides the vertical order of non-crossing segments). Non-trivial: the set contains two events at one point or a collinear pair.",
             design_ref: "§5 C15",
-            families: pair_families(tier, 32_000, 1_600_000, false, false),
+            families: pair_families(tier, 32_000, 1_600_000, false, false, 12),
             spaces: vec![],
             check: Box::new(stage::c15),
             assumptions,
@@ -167,7 +169,7 @@ pub fn spec(id: &str, tier: Tier) -> Option<Spec> {
             id: "C06",
             rule: "robust-domain operand pairs (no self-crossing rings). Swap: ring multisets of op(A,B) and op(B,A) for intersection/union/xor (bitwise on exact families; region fallback on inexact ones). Self: A-A and A xor A empty, A∩A and A∪A equal A as regions, and as ring multisets when no two rings of A touch. Empty operand: nine identities, results bit-identical to the inputs. Disjoint boxes: B translated beyond A's box, results bit-identical combinations of the inputs. Touching boxes (exact families): B translated so that its leftmost vertex sits on A's rightmost vertex; region oracle for all operations and ring multisets when the contact is a single vertex and no rings touch otherwise. Non-trivial: operands share a boundary segment, or A is non-empty (self laws).",
             design_ref: "§5 C06",
-            families: pair_families(tier, 64_000, 3_200_000, true, false),
+            families: pair_families(tier, 64_000, 3_200_000, true, false, 12),
             spaces: match tier {
                 Tier::Quick => vec![rect_pair_space("all bitmap pairs on the 2x2 unit grid", 2, 2)],
                 Tier::Thorough => vec![rect_pair_space("all bitmap pairs on the 3x2 unit grid", 3, 2)],
@@ -180,7 +182,7 @@ pub fn spec(id: &str, tier: Tier) -> Option<Spec> {
             id: "C07",
             rule: "robust-domain operand pairs; each operand is rewritten (every ring started at a random vertex, reversed independently, 0-2 vertices repeated consecutively, closing vertex possibly repeated, holes and parts rotated/reversed in order, zeros written as -0.0 in a quarter of the cases) and all 4 operations are run on both forms: exact families must give identical ring and polygon multisets, inexact families the same region (and the rewritten result must satisfy the membership oracle); when an operand is a single polygon all applicable trait implementations must return the identical MultiPolygon. Non-trivial: the rewriting changed the byte representation and the base case is C01-non-trivial.",
             design_ref: "§5 C07",
-            families: pair_families(tier, 64_000, 3_200_000, true, false),
+            families: pair_families(tier, 64_000, 3_200_000, true, false, 12),
             spaces: vec![],
             check: Box::new(|c, o| laws::c07(c, o, Prec::F64)),
             assumptions,
@@ -190,7 +192,7 @@ pub fn spec(id: &str, tier: Tier) -> Option<Spec> {
             id: "C08",
             rule: "robust-domain operand pairs, per case: one scaling of both operands by 2^k (k in [-40,40], no overflow/underflow) compared bit for bit with the scaled result for all 4 operations; one integer translation (|t| <= 1e6) on the integer-lattice families compared bit for bit; three of the seven non-identity axis symmetries, for which the result of the transformed operands must satisfy the membership oracle and equal the transformed result as a region. Non-trivial: base case C01-non-trivial and some result non-empty.",
             design_ref: "§5 C08",
-            families: pair_families(tier, 48_000, 2_400_000, true, false),
+            families: pair_families(tier, 48_000, 2_400_000, true, false, 12),
             spaces: vec![],
             check: Box::new(|c, o| laws::c08(c, o, Prec::F64)),
             assumptions,
@@ -200,7 +202,7 @@ pub fn spec(id: &str, tier: Tier) -> Option<Spec> {
             id: "C09",
             rule: "robust-domain operand pairs, per case: (1) a rectangle 4096 magnitudes away to the left/right/above/below added to A or to B: ring multiset of the result = ring multiset of the base result plus the part exactly when it contributes (union, xor, subject part under difference); (2) far parts added on the same side of both operands (to the right, so that intersection/difference cannot stop early, and above, left and below), which moves every bound derived from the operands' boxes; (3) the same near geometry through the bounding-box shortcut (B moved away) and through the sweep (a tall far part on A re-overlaps the boxes). Ring multisets compared bitwise; where the shortcut hands back rings of operands whose rings touch each other, and for self-crossing rings (read by the even-odd rule), regions are compared instead. Non-trivial: base case C01-non-trivial and the extra part changes the sweep's right bound, lies to the left, or flips the box test.",
             design_ref: "§5 C09",
-            families: pair_families(tier, 128_000, 3_200_000, true, false),
+            families: pair_families(tier, 128_000, 3_200_000, true, false, 12),
             spaces: vec![],
             check: Box::new(|c, o| laws::c09(c, o, Prec::F64)),
             assumptions,
@@ -210,7 +212,7 @@ pub fn spec(id: &str, tier: Tier) -> Option<Spec> {
             id: "C10",
             rule: "robust-domain operand pairs whose coordinates are (exact families) exactly representable in f32 with 22-bit coordinates and 11-bit differences, or (inexact families) rounded to f32 and re-validated with a single-precision general-position margin; cases that do not qualify are skipped and counted. Exact families: the f32 result must equal the f64 result coordinate for coordinate (all operations). All families: the oracles of C01, C02, C04, C05 and one of C06/C07/C08/C09 are re-run with the operation executed in f32 (tolerance 1e-4*magnitude on inexact families). In addition the pairwise intersection step is judged by C16's oracle in f32: integer segment pairs with |coordinate| <= 1024 (every product exact in f32; all clauses, including a class of long almost parallel crossing segments) and finite f32 float pairs. Non-trivial (operand pairs): C01-non-trivial and the result contains a computed vertex.",
             design_ref: "§5 C10",
-            families: pair_families(tier, 64_000, 3_200_000, false, false),
+            families: pair_families(tier, 64_000, 3_200_000, false, false, 12),
             spaces: vec![],
             check: Box::new(more::c10),
             assumptions,
@@ -218,7 +220,7 @@ pub fn spec(id: &str, tier: Tier) -> Option<Spec> {
         },
         "C11" => Spec {
             id: "C11",
-            rule: "triples (A,B,C) of exact-arithmetic operands on a common lattice (rect, oct and their affine images): every one of the 4 intermediate results A op B must be an acceptable operand (closed rings, no crossing or overlapping edges, structural validity), and all 16 (op,op') pairs x both nesting sides x third operand in {C, A, B} (96 forms) plus one depth-3 chain are judged by exact membership on the joint arrangement of A, B, C; float triples in general position with the independent third operand only (32 forms). Non-trivial: an intermediate result is non-empty and has a computed vertex or touching rings.",
+            rule: "triples (A,B,C) of exact-arithmetic operands on a common lattice (rect, oct and their affine images, fans around one apex, flat-oct): every one of the 4 intermediate results A op B must be an acceptable operand (closed rings, no crossing or overlapping edges, structural validity), and all 16 (op,op') pairs x both nesting sides x third operand in {C, A, B} (96 forms) plus one depth-3 chain are judged by exact membership on the joint arrangement of A, B, C; float triples in general position with the independent third operand only (32 forms). Non-trivial: an intermediate result is non-empty and has a computed vertex or touching rings.",
             design_ref: "§5 C11",
             families: {
                 let q = |a: u64, b: u64| tier.pick(a, b);
@@ -227,6 +229,8 @@ pub fn spec(id: &str, tier: Tier) -> Option<Spec> {
                     fam("oct", q(3000, 100_000), true, || strat::case(strat::oct_shape(3, 3), false)),
                     fam("aff-oct", q(600, 25_000), true, || strat::case(strat::oct_shape(3, 3), true)),
                     fam("gen", q(1000, 25_000), true, || strat::case(strat::gen_shape(), false)),
+                    fam("fan", q(600, 25_000), true, || strat::case(strat::fan_shape(), false)),
+                    fam("flat-oct", q(400, 15_000), true, || strat::flat_case(3, 3, 30)),
                 ]
             },
             spaces: vec![],
@@ -244,6 +248,7 @@ pub fn spec(id: &str, tier: Tier) -> Option<Spec> {
                     fam("rect", q(1600, 30_000), true, || strat::case(strat::rect_shape(4, 4, false), false)),
                     fam("oct", q(1600, 30_000), true, || strat::case(strat::oct_shape(3, 3), false)),
                     fam("gen", q(800, 15_000), true, || strat::case(strat::gen_shape(), false)),
+                    fam("fan", q(400, 10_000), true, || strat::case(strat::fan_shape(), false)),
                 ]
             },
             spaces: vec![],
